@@ -367,6 +367,13 @@ void thrift_read_map_begin(thrift_decoder_t* dec,
  * ============================================================================
  */
 
+/* Skip a fixed-width value; a truncated value is an error, not a no-op. */
+static void skip_fixed(thrift_decoder_t* dec, size_t n) {
+    if (carquet_buffer_reader_skip(&dec->reader, n) != CARQUET_OK) {
+        set_error(dec, CARQUET_ERROR_THRIFT_TRUNCATED, "Truncated value");
+    }
+}
+
 void thrift_skip(thrift_decoder_t* dec, thrift_type_t type) {
     if (dec->status != CARQUET_OK) {
         return;
@@ -387,7 +394,7 @@ void thrift_skip(thrift_decoder_t* dec, thrift_type_t type) {
             break;
 
         case THRIFT_TYPE_BYTE:
-            carquet_buffer_reader_skip(&dec->reader, 1);
+            skip_fixed(dec, 1);
             break;
 
         case THRIFT_TYPE_I16:
@@ -397,7 +404,7 @@ void thrift_skip(thrift_decoder_t* dec, thrift_type_t type) {
             break;
 
         case THRIFT_TYPE_DOUBLE:
-            carquet_buffer_reader_skip(&dec->reader, 8);
+            skip_fixed(dec, 8);
             break;
 
         case THRIFT_TYPE_BINARY: {
@@ -440,7 +447,7 @@ void thrift_skip(thrift_decoder_t* dec, thrift_type_t type) {
         }
 
         case THRIFT_TYPE_UUID:
-            carquet_buffer_reader_skip(&dec->reader, 16);
+            skip_fixed(dec, 16);
             break;
 
         default:
